@@ -17,7 +17,9 @@ open Inv.Generated
       reads `pid` / `parent_fd` instead);
     * `pid` / `parent_fd` left by a pty run while the run does not use a pty (it reads `process` instead);
     * `status`: only the pty path reads it, in `returncode`, after `process_is_finished` - which `wait` polls first
-      and which assigns it from `os.waitpid` on every poll. -/
+      and which assigns it from `os.waitpid` on every poll.
+    That argument is additionally exercised where it matters most, the kill path (`Local.kill` chooses between `pid`
+    and `process.pid`): see `overrunRowOk` / `Generated.overrunOutcomes`. -/
 def inertLeftovers : List (String × String) :=
   [("pty", "process"), ("plain", "pid"), ("plain", "parent_fd"), ("plain", "status"), ("pty", "status")]
 
@@ -28,5 +30,10 @@ def rowInert (r : String × String × String × String × String) : Bool :=
 /-- every first run of the probe leaves state behind (so "nothing carried over" is not vacuous) -/
 def everyScenarioDirties : Bool :=
   dirtyScenarios.all fun d => dirtied.any fun p => p.1 == d
+
+/-- a second run that overruns its timeout ends the same way on the reused object as on a fresh one: killed
+    (`exited = -9`), reported as timed out, within 3 s of a 0.3 s timeout -/
+def overrunRowOk (r : String × String × String × String) : Bool :=
+  r.2.2.1 == r.2.2.2 && r.2.2.2 == "CommandTimedOut(exited=-9, within 3s=True)"
 
 end Inv.RunnerReuse
